@@ -248,7 +248,14 @@ pub fn families(tier: Tier) -> Vec<(&'static str, Vec<Case>)> {
         for it in items.iter().filter(|i| i.family == "scale") {
             let pr = print_program(&it.program);
             let words: Vec<String> = pr.toks.iter().map(|t| t.text.clone()).collect();
-            token_window_cases("F4-program-token-windows", &words, &SIGMA_TOK[..tier.pick(12, 33)], &mut v);
+            let mut w = vec![];
+            token_window_cases("F4-program-token-windows", &words, &SIGMA_TOK[..tier.pick(12, 33)], &mut w);
+            // quick tier: a fixed quarter of them (chosen by the case's own hash, so that the
+            // quick cases are a subset of the thorough ones and the exact list covers both)
+            if tier == Tier::Quick {
+                w.retain(|c| c.id() % 4 == 0);
+            }
+            v.extend(w);
         }
         let big: Vec<_> = items.iter().filter(|i| i.family == "stmt@contexts" || i.family == "expr@contexts").collect();
         for it in big.iter().step_by(tier.pick(300, 30)) {
@@ -581,6 +588,7 @@ pub fn sweep(tier: Tier) -> SweepResult {
     let mut nontrivial = 0u64;
     let mut states: HashSet<u64> = HashSet::new();
     for (name, cases) in &fams {
+        let t_fam = std::time::Instant::now();
         let res: Vec<(u64, Option<(String, String)>)> = cases
             .par_iter()
             .map(|c| {
@@ -625,7 +633,7 @@ pub fn sweep(tier: Tier) -> SweepResult {
                 }
             }
         }
-        stats.push(json!({"family": name, "cases": cases.len(), "pre_states": distinct_texts.len(), "diverging": fam_fail, "diverging_known": fam_known, "diverging_by_component": by_comp}));
+        stats.push(json!({"family": name, "cases": cases.len(), "pre_states": distinct_texts.len(), "diverging": fam_fail, "diverging_known": fam_known, "diverging_by_component": by_comp, "seconds": (t_fam.elapsed().as_secs_f64() * 10.0).round() / 10.0}));
     }
     // the same property observed at the protocol level: diagnostics published after didChange
     // equal those published for a fresh didOpen of the final text (real run(), real broker)
@@ -636,6 +644,8 @@ pub fn sweep(tier: Tier) -> SweepResult {
             .iter()
             .filter(|(n, _)| *n == "F2-token-soup" || *n == "F4-program-token-windows" || *n == "batches-of-two" || *n == "empty-update" || *n == "same-length-edits")
             .flat_map(|(_, cs)| cs.iter().step_by(tier.pick(23, 5)))
+            // (quick tier: the large program only at the analysis level above)
+            .filter(|c| tier == Tier::Thorough || c.text.len() <= 2000)
             .collect();
         let res: Vec<(u64, Option<String>)> = cases
             .par_iter()
@@ -702,6 +712,7 @@ after a fresh didOpen {:?}", last(&o), last(&of)))
             .filter(|(n, _)| *n == "F2-token-soup" || *n == "F4-program-token-windows" || *n == "F5-valid-to-valid-token-edits" || *n == "F6-structural-edits" || *n == "batches-of-two" || *n == "empty-update" || *n == "same-length-edits")
             .flat_map(|(_, cs)| cs.iter().step_by(tier.pick(211, 29)))
             .filter(|c| !known.contains(&c.id()))
+            .filter(|c| tier == Tier::Thorough || c.text.len() <= 2000 || c.id() % 8 == 0)
             .collect();
         let canon = |mut v: Value| -> Value {
             if let Some(a) = v.get_mut("result").and_then(|r| r.as_array_mut()) {
